@@ -1,6 +1,6 @@
 (* C04 — every registered system is in the executed layout exactly once (plan level).
    Statements only; proofs are in PlanProps.v. *)
-From Shred Require Import Base SrcParams Plan PlanObs PlanInv PlanLoc PlanBuild PlanProps.
+From Shred Require Import Base SrcParams Plan PlanObs PlanInv PlanLoc PlanBuild PlanProps PlanLemmas Exec ExecProps ExecPlan.
 From Coq Require Import Permutation.
 
 (* For registration programs of ANY length: the flattened executed layout (the boxed
@@ -29,6 +29,25 @@ Print Assumptions C04_group_never_overfilled.
 Theorem C04_params_ok : params_ok = true.
 Proof. exact params_ok_true. Qed.
 Print Assumptions C04_params_ok.
+
+(* ---- run time: one dispatch fetches and releases every registered system object exactly
+   once in EVERY trace, and k dispatches exactly k times ---- *)
+Theorem C04_every_system_exactly_once_per_dispatch :
+  forall rs b t,
+  plan rs = Ok b -> Forall reg_time_ok1 rs -> NoDup (sys_tags rs ++ tl_tags rs) ->
+  traces_disp (layout_tags b) (b_tl b) t ->
+  (forall x, In x (sys_tags rs ++ tl_tags rs) -> count_ev (EF x) t = 1%nat /\ count_ev (ER x) t = 1%nat) /\
+  (forall e, In e t -> In (ev_tag e) (sys_tags rs ++ tl_tags rs)).
+Proof. exact run_exactly_once. Qed.
+Print Assumptions C04_every_system_exactly_once_per_dispatch.
+
+Theorem C04_k_dispatches_k_times :
+  forall rs b k t,
+  plan rs = Ok b -> Forall reg_time_ok1 rs -> NoDup (sys_tags rs ++ tl_tags rs) ->
+  traces_rep (layout_tags b) (b_tl b) k t ->
+  forall x, In x (sys_tags rs ++ tl_tags rs) -> count_ev (EF x) t = k /\ count_ev (ER x) t = k.
+Proof. exact run_k_times. Qed.
+Print Assumptions C04_k_dispatches_k_times.
 
 (* non-vacuity: a program with a joined group, a barrier and a dependency satisfies the hypotheses *)
 Example C04_example :
